@@ -281,6 +281,36 @@ func c13Refresh(c *core.Ctx, pkg *packages.Package, class map[string]string) {
 				}
 			}
 		}
+		// the refresh runs on every path that answers with a cached subring other than the ring itself: with
+		// "cached == recv" false, no return of a non-nil value is reached without entering the refresh loop first
+		// (a conditional refresh — TryLock, "recently refreshed", … — hands out stale states and heartbeats)
+		{
+			g := fn.Graph()
+			var rets []an.Loc
+			for _, b := range g.Blocks {
+				if r := an.ReturnOf(b); r != nil && len(r.Results) == 1 && fn.Canon(r.Results[0]) != "nil" {
+					rets = append(rets, g.Locate(r))
+				}
+			}
+			targets := append([]an.Loc{g.Locate(loop.X)}, rets...)
+			bnd := &an.Binder{Fn: fn, Eq: map[string]string{"recv|" + cachedBase: "self", cachedBase + "|recv": "self"}, Row: an.Row{"self": "F"}}
+			ex := g.Exec(g.EntryLoc(), targets, bnd.Leaf, an.ExecOpts{Record: true})
+			skipped := 0
+			for _, tr := range ex.Traces {
+				seenLoop := false
+				for _, h := range tr {
+					if h.Target == 0 {
+						seenLoop = true
+					} else if !seenLoop {
+						skipped++
+					}
+				}
+			}
+			if skipped > 0 || ex.Overflow || len(rets) == 0 {
+				ok = false
+			}
+			c.Check(skipped == 0 && !ex.Overflow && len(rets) > 0, "R1", "refresh:func="+name+":every-hit", loop.Pos(), fmt.Sprintf("%d paths answer with a cached subring that is not the ring itself; %d of them skip the refresh loop", len(ex.Traces), skipped), len(ex.Traces))
+		}
 		// the refresh must run on every path that returns the cached subring other than the ring itself
 		c.Check(ok && wroteBack && strings.Join(refreshed, ",") == strings.Join(vol, ","), "R1", "refresh:func="+name, loop.Pos(),
 			fmt.Sprintf("fields refreshed from the parent ring into the cached subring (%s) = %v; volatile fields of RingCompare = %v; copied unconditionally from the same-named field of the parent's entry=%v; written back=%v", cachedBase, refreshed, vol, ok, wroteBack), len(refreshed))
@@ -460,7 +490,11 @@ func c13Caches(c *core.Ctx, pkg *packages.Package) {
 		}
 	}
 	c13Fills(c, pkg, "R3")
-	// R4: the public entry points hand the request's own identifier, size, period and time to the cache accessors
+	c13EntryArgs(c, pkg)
+}
+
+// c13EntryArgs (R4): the public entry points hand the request's own identifier, size, period and time to the cache accessors
+func c13EntryArgs(c *core.Ctx, pkg *packages.Package) {
 	for _, e := range []struct {
 		fn     string
 		callee []string
